@@ -32,6 +32,7 @@ import scen_proc
 MODEL = 'logpipe'
 HANG_BOUND = scen_proc.HANG_BOUND
 NAMES = ['cfg.a', 'cfg.b', 'cfg.c']            # parent levels: DEBUG, ERROR, inherited from root
+SYNC = 'cfg.sync'                              # level DEBUG in the parent, never changed: carries the hand-shake records
 LEVELS = [10, 20, 30, 40]
 LEVELS_LOW = [5, 10, 30, 40]                   # with a custom level below DEBUG (cases with low=True: parent root level 1)
 
@@ -102,6 +103,49 @@ def burst_case(rng, ending, n, secs=2.0):
     return c
 
 
+def levels_case(rng, n=None, ncuts=None):
+    """the parent changes its level settings while the child runs: on the record's own logger, on the ancestor
+    `cfg`, on the root.  To keep the oracle exact the child pauses at each cut (after a hand-shake record on
+    `cfg.sync`, always handled); the parent changes a level only when it has handled that record, i.e. when
+    everything emitted so far has been handled; the child then goes on.  So record i is judged by the levels
+    in force in its own segment."""
+    n = n or rng.choice([12, 30, 80, 300])
+    ncuts = ncuts or rng.choice([1, 2, 3, 4])
+    cuts = sorted(rng.sample(range(2, n - 1), min(ncuts, n - 3)))
+    changes = []
+    for _ in cuts:
+        tgt = rng.choice(['cfg.a', 'cfg.b', 'cfg.c', 'cfg.c', 'cfg', 'cfg', 'root', 'root'])
+        changes.append([tgt, rng.choice([10, 20, 30, 40] if tgt == 'root' else [0, 10, 20, 30, 40])])
+    c = _mk(rng, n, rng.choice([10, 100, 1000]), gap=0, late=False)
+    c['levels'] = dict(cuts=cuts, changes=changes)
+    return c
+
+
+def slowtail_case(rng, ending, n=200, slow=0.02, daemon=False, prog_exit=False):
+    """a slow parent handler (`slow` seconds per record) and `n` records emitted right before the target ends:
+    when the child has exited the parent still needs seconds for what is in the pipe.  `daemon` + `prog_exit`:
+    a daemonic child, and the parent PROGRAM ends right after join()/result() returned - whatever has not been
+    handled by then is lost for good (the reader thread of a daemonic child is a daemon thread)."""
+    c = _mk(rng, n, 100, ending=ending, gap=0, root_level=10)
+    c['slow'] = slow
+    c['daemon'] = daemon
+    c['prog_exit'] = prog_exit
+    c['hang_bound'] = HANG_BOUND + 2 * n * slow
+    return c
+
+
+def level_state(case, i):
+    """levels in force when record i is emitted and handled: the initial configuration plus every change whose cut
+    lies before i"""
+    st = {'root': case['root_level'], 'cfg': 0, 'cfg.a': 10, 'cfg.b': 40, 'cfg.c': 0, SYNC: 10}
+    lv = case.get('levels')
+    if lv:
+        for cut, (tgt, level) in zip(lv['cuts'], lv['changes']):
+            if cut < i:
+                st[tgt] = level
+    return st
+
+
 def servlet_case(rng, n, size):
     return dict(via='servlet', n=n, size=size, sizes=None, ending='ret', first='join', root_level=rng.choice([10, 30]),
                 lvl_seed=rng.randrange(1000), gap=0, late=False, K=rng.choice([1, 7]), seed=rng.randrange(1 << 30),
@@ -121,13 +165,16 @@ def n_total(case):
 
 
 def rec_name_level(case, i):
+    if case.get('levels') and i in case['levels']['cuts']:
+        return SYNC, 50
     k = (i * 7 + case['lvl_seed']) % 12
     return NAMES[k % 3], (LEVELS_LOW if case.get('low') else LEVELS)[(k // 3 + i) % 4]
 
 
 def passes(case, i):
     name, lvl = rec_name_level(case, i)
-    eff = {'cfg.a': 10, 'cfg.b': 40, 'cfg.c': case['root_level']}[name]
+    st = level_state(case, i)
+    eff = st[name] or st['cfg'] or st['root']       # Logger.getEffectiveLevel: own level, else the ancestors', else the root's
     return lvl >= eff
 
 
@@ -145,6 +192,12 @@ def case_class(case):
     vol = n_total(case) * (case['size'] if not case.get('sizes') else sum(case['sizes']) // len(case['sizes']))
     st = case.get('stall')
     tag = '' if not st else ('-burst' if n_total(case) >= 10000 else '-stalled-parent')
+    if case.get('levels'):
+        tag += '-levelchange'
+    if case.get('prog_exit'):
+        tag += '-daemon-progexit'
+    elif case.get('slow') and case['slow'] >= 0.01:
+        tag += '-slowtail'
     return (f"{case['via']}:{'small' if vol < 30000 else 'beyond-pipe'}{'-lowlevel' if case.get('low') else ''}{tag}:"
             f"{case['ending']}{':late' if case['late'] else ''}")
 
@@ -181,6 +234,15 @@ def monitor(case, res):
         mon.append(dict(prop='C20', rule='lost',
                         detail=f'{len(missing)} of {len(exp)} records never handled (first missing {missing[:5]}, '
                                f'last handled {got[-1] if got else None}); class {cls}'))
+    later = len(sexp & set(got)) - (res.get('at_join') or 0)      # records that came in only after join()/result() had returned
+    if res.get('joined') and res.get('at_join') is not None and not dups and not extra and (
+            later > 0 or (case.get('prog_exit') and res['at_join'] < len(exp))):
+        mon.append(dict(prop='C20', rule='unhandled-at-join',
+                        detail=f'{case["first"]}() returned when only {res["at_join"]} of {len(exp)} records had been handled '
+                               f'({"the parent program then ended: they are lost for good" if case.get("prog_exit") else "the rest trickled in later"}); '
+                               f'join is the only point at which a caller can know the child\'s records are in; class {cls}'))
+    if res.get('sync_missed'):
+        mon.append(dict(prop='C20', rule='lost', detail=f'hand-shake record(s) {res["sync_missed"]} never handled; class {cls}'))
     if res.get('joined') and res.get('exitcode') is None:
         mon.append(dict(prop='C20', rule='child-alive', detail=f'join returned but the child has no exit status; class {cls}'))
     if res.get('joined') and res.get('ending_ok') is False:
@@ -201,6 +263,9 @@ def run_case(case):
         res.setdefault('monitors', [])
         res.setdefault('events', [])
         return res
+    if case.get('prog_exit') and res.get('handled') is None:
+        res['handled'] = [int(x) for x in (res.get('side') or '').split()]
+    res.pop('side', None)
     res['monitors'] = monitor(case, res)
     h = res.get('handled') or []
     # compact, hashable summary for the distinct-case bookkeeping
@@ -231,7 +296,7 @@ def _size(case, i):
 
 def _emit(case, lo, hi):
     import logging
-    loggers = {nm: logging.getLogger(nm) for nm in NAMES}
+    loggers = {nm: logging.getLogger(nm) for nm in NAMES + [SYNC]}
     for i in range(lo, hi):
         name, lvl = rec_name_level(case, i)
         loggers[name].log(lvl, '%d|%s', i, 'x' * _size(case, i))
@@ -241,8 +306,18 @@ class EndError(Exception):
     pass
 
 
-def log_target(case):
-    _emit(case, 0, case['n'])
+def log_target(case, evs=None):
+    lv = case.get('levels')
+    if lv:
+        lo = 0
+        for j, cut in enumerate(lv['cuts']):
+            _emit(case, lo, cut + 1)            # ... up to and including the hand-shake record
+            evs[0][j].set()                     # paused
+            evs[1][j].wait(120)                 # the parent has changed a level and says go
+            lo = cut + 1
+        _emit(case, lo, case['n'])
+    else:
+        _emit(case, 0, case['n'])
     if case['gap']:
         time.sleep(case['gap'])
     e = case['ending']
@@ -319,7 +394,7 @@ def _inner(case):
 
     class Rec(logging.Handler):
         def emit(self, record):
-            if record.name not in NAMES:
+            if record.name not in NAMES and record.name != SYNC:
                 return      # mpservice's own records (servlet start-up etc.)
             if case.get('slow'):
                 time.sleep(case['slow'])
@@ -330,12 +405,22 @@ def _inner(case):
                 handled.append(int(str(record.args[0]) if record.args else record.getMessage().split('|')[0]))
             except Exception:
                 handled.append(-1)
+            if side is not None:
+                side.write(f'{handled[-1]}\n')
+                side.flush()
+            ev = sync_seen.get(handled[-1])
+            if ev is not None and record.name == SYNC:
+                ev.set()
 
+    side = open(_SIDE_PATH[0], 'w') if case.get('prog_exit') and _SIDE_PATH[0] else None
+    lv = case.get('levels')
+    sync_seen = {cut: threading.Event() for cut in lv['cuts']} if lv else {}
     root = logging.getLogger()
     root.setLevel(case['root_level'])
     root.addHandler(Rec())
     logging.getLogger('cfg.a').setLevel(10)
     logging.getLogger('cfg.b').setLevel(40)
+    logging.getLogger(SYNC).setLevel(10)
 
     if case['via'] == 'servlet':
         return _inner_servlet(case, out, handled, t0)
@@ -346,8 +431,24 @@ def _inner(case):
     if case['late']:
         import scen_log
         p = scen_log.LateLoggingProcess(target=_late_target, args=(case,))
+    elif lv:
+        from mpservice.multiprocessing import Event
+        evs = ([Event() for _ in lv['cuts']], [Event() for _ in lv['cuts']])
+        p = Process(target=log_target, args=(case, evs))
+
+        def leveler():
+            for j, cut in enumerate(lv['cuts']):
+                # change a level only when everything emitted so far has been handled (the hand-shake record is the
+                # last of its segment and the reader handles in order); if it never arrives go on after the child paused
+                if not sync_seen[cut].wait(HANG_BOUND):
+                    out.setdefault('sync_missed', []).append(cut)
+                tgt, level = lv['changes'][j]
+                (logging.getLogger() if tgt == 'root' else logging.getLogger(tgt)).setLevel(level)
+                evs[1][j].set()
+
+        threading.Thread(target=leveler, daemon=True).start()
     else:
-        p = Process(target=log_target, args=(case,))
+        p = Process(target=log_target, args=(case,), daemon=bool(case.get('daemon')) or None)
     p.start()
     scen_proc._KEEP.append(p)
     box = []
@@ -368,6 +469,12 @@ def _inner(case):
         out['at_join'] = box[1]
         out['ending'], out['ending_ok'] = _ending(case, *box[0])
     out['t_join'] = round(time.time() - t0, 3)
+    if case.get('prog_exit'):
+        # the parent program ends now (normal interpreter exit in _inner_main); what it handled is on the side file
+        out['exitcode'] = p.exitcode
+        out['handled'] = None
+        out['t_total'] = round(time.time() - t0, 3)
+        return out
     _settle(handled)
     out['exitcode'] = p.exitcode
     out['handled'] = list(handled)
@@ -487,8 +594,12 @@ def __getattr__(name):      # noqa: F811
     return _orig_getattr(name)
 
 
+_SIDE_PATH = [None]
+
+
 def _inner_main(argv):
     cf, of = argv
+    _SIDE_PATH[0] = of + '.side'
     with open(cf) as f:
         case = json.load(f)
     try:
@@ -501,6 +612,8 @@ def _inner_main(argv):
         json.dump(res, f)
     os.replace(tmp, of)
     sys.stdout.flush()
+    if case.get('prog_exit') and not res.get('infra') and res.get('joined'):
+        sys.exit(0)         # a normal end of the parent program: daemon threads (a daemonic child's log reader) die with it
     os._exit(0)
 
 
